@@ -399,7 +399,7 @@ class Sim:
         if c in self.F.fns and depth > 0 and c not in self.opaque and not self.F.fns[c].derived and \
                 (c.startswith("ucg::") or c.startswith("ucglib::") or c.startswith("<ucg")):
             cf = self.F.fns[c]
-            if self.site is None or not self._reaches_site(c):
+            if self.site is None or not self._reaches_site(c) or c != fn.name:
                 # references into our frame cannot be followed into the callee: the pointee's current value goes along instead
                 # (what the callee writes through a &mut is forgotten afterwards: _kill_mut_args)
                 cargs = [a if a[0] not in ("r",) else U for a in args]
@@ -803,6 +803,8 @@ class Sim:
 
     def _pull(self, it, fr, fd, depth, fn):
         """possible (fired', element) for one element of the pipeline, None if a stage is not modelled"""
+        if it[1] and it[1][0] == ("src_empty",):
+            return set()         # a source known to be empty: nothing comes out, whatever the stages are
         cur = {(fd, U)}
         for st in it[1]:
             if st[0] == "src":
